@@ -18,7 +18,8 @@ template class vector<int>;
 inline void c06_use(map<int, int>& m, multimap<int, int>& mm, multiset<int>& ms, unordered_set<int>& us, unordered_map<int, int>& um, unordered_multimap<int, int>& umm)
 {
 	ms.insert(ms.begin(), ms.extract(ms.begin()));   // node round trips: insert(hint, node&&) bodies
-	{ set<int> s1; vector<int> v1; m.insert(m.extract(1)); (void)m.extract(m.begin()); s1.merge(s1); m.merge(m); us.merge(us); (void)(s1 == s1); (void)(s1 != s1); (void)(s1 < s1); (void)(s1 > s1); (void)(s1 <= s1); (void)(s1 >= s1);   // relational operators
+	{ set<int> s1; vector<int> v1; s1 = { 1 }; us = { 1 }; um = { { 1, 2 } }; m = { { 1, 2 } };   // init-list assignment
+	  m.insert(m.extract(1)); (void)m.extract(m.begin()); s1.merge(s1); m.merge(m); us.merge(us); (void)(s1 == s1); (void)(s1 != s1); (void)(s1 < s1); (void)(s1 > s1); (void)(s1 <= s1); (void)(s1 >= s1);   // relational operators
 	  (void)(m == m); (void)(m != m); (void)(m < m); (void)(m > m); (void)(m <= m); (void)(m >= m);
 	  (void)(v1 == v1); (void)(v1 != v1); (void)(v1 < v1); (void)(v1 > v1); (void)(v1 <= v1); (void)(v1 >= v1); }
 	(void)(us == us); (void)(um == um); (void)(umm == umm);   // friend operator== bodies
